@@ -56,7 +56,7 @@ IdlCases ==
 \* late : 1 = the liars connect first and act only after every peer has completed its extension handshake;
 \* priv : 1 = the info dictionary is private
 EPol  == {"honest", "total", "sizeplus", "sizeminus", "badlen", "dup", "unreq", "garbage", "reject", "stall", "over", "capmax",
-          "drop", "junk", "proto", "nometa"}
+          "drop", "junk", "proto", "nometa", "forge", "huge", "neg"}
 Liars == EPol \ {"honest"}
 E2E(pv, nb, pa, la, pr) == [k |-> "e2e", pols |-> pv, nb |-> nb, par |-> pa, late |-> la, priv |-> pr]
 E2ECases ==
